@@ -442,6 +442,7 @@ impl Harness for QueueHarness {
             cfg.cas_weak_fail_prob = 0.05;
         }
         if mode == "sc+p1" {
+            cfg.post_yield_prob = 0.15;
             cfg.p1 = true;
             cfg.split_prob = 0.3;
         }
@@ -457,6 +458,18 @@ impl Harness for QueueHarness {
         macro_rules! go {
             ($t:ty) => {{
                 let q: Arc<$t> = Arc::new(<$t>::new());
+                // slots of the generic queue start uninitialised: give them a fixed content (push/pop once
+                // around) so that write-split detection does not depend on heap garbage
+                {
+                    let mut p_ = q.acquire_p().unwrap();
+                    let mut c_ = q.acquire_c().unwrap();
+                    for _ in 0..cap {
+                        let _ = <$t as SpscQ>::push(&mut p_, 0xA5A5);
+                    }
+                    for _ in 0..cap {
+                        let _ = <$t as SpscQ>::pop(&mut c_);
+                    }
+                }
                 sim::run(cfg.to_cfg(), dec, move || body::<$t>(q, p, sh2, weak, cap))
             }};
         }
